@@ -7,10 +7,25 @@ import os
 ROOT = os.path.dirname(os.path.dirname(os.path.abspath(__file__)))
 
 NOTE_COMMON = ("Trusted base: the harness (scripted children, wake-only executor, trace oracles) and, for generation, "
-               "proptest's RNG seeded from VERIF_SEED. Bounds: tuples <= 12, Vec <= 200 (thorough), scripts <= 10 steps, "
-               "schedules <= 40 actions, one level of nesting. Generated search never establishes absence. Wake-ups from "
+               "proptest's RNG seeded from VERIF_SEED. Bounds: tuples <= 12, Vec <= 200 (boundary lengths up to 200 now and then in the quick tier, "
+               "often in the thorough tier), scripts <= 10 steps, schedules <= 40 actions, one level of nesting, no poll of a combinator after "
+               "its own final result. Generated search never establishes absence. Wake-ups from "
                "other threads are generated as wakes landing between polls or inside a child's poll (plus joined helper-thread "
                "fires); truly simultaneous execution is not explored.")
+
+NOTE_GROUP = ("Trusted base: the harness (scripted members, wake-only executor, reference model of the live members, trace oracles) and proptest's RNG "
+              "seeded from VERIF_SEED. Bounds: histories <= 40 operations (quick) / 120 (thorough) plus bursts of up to 70 inserts, initial capacity <= 100, reserve <= 130, "
+              "member scripts <= 6 steps, members may be one-level nested combinators. Generated search never establishes absence. Shared-oracle violations count only when the "
+              "group itself is to blame (DESIGN.md section 4, Attribution).")
+NOTE_CO = ("Trusted base: the harness (scripted source, one scripted future per closure invocation, wake-only executor, trace oracles) and proptest's RNG seeded from "
+           "VERIF_SEED. Bounds: source length <= 12, adapter stacks of depth <= 3, closure-future scripts <= 4 steps, schedules <= 30 actions, std and alloc-only. "
+           "An error counts as observed by the consumer at the moment the failing future answers (futures only answer when the consumer polls them). "
+           "Generated search never establishes absence.")
+NOTE_AUTOTRAITS = ("Trusted base: rustc's trait solver and the generator of obligation programs. Each accepted obligation has type parameters as leaves, so it holds for every "
+                   "child type with the stated bounds; sampling is only over constructors, containers, arities (arrays 1,2,3,5,12; tuples 0..12) and nestings (depth <= 3). The Sync "
+                   "obligations give children and outputs Send + Sync; tuple race_ok additionally needs E: Debug (a precondition of the API). Closures of the concurrent-stream "
+                   "functions are Send but not Sync. A negative control must be rejected, otherwise the run exits 2.")
+NOTES = {"group": NOTE_GROUP, "co": NOTE_CO, "autotraits": NOTE_AUTOTRAITS}
 
 CHECKS = {
     "C01": ("comb", "§5 C01, §4 L/P",
@@ -86,7 +101,7 @@ def main():
             "replay_cmd_template": "python3 check.py %s --replay {path}" % pid,
             "engine": engine,
             "level_claimed": {"category": "exploration", "text": text, "design_ref": ref},
-            "level_note": NOTE_COMMON,
+            "level_note": NOTES.get(engine, NOTE_COMMON),
             "technique": tech,
         })
     m = {
